@@ -27,7 +27,7 @@ META = {
         'impl ⊆ envelope on the regular abstraction (sound: the abstraction over-approximates the reader), witnesses '
         're-validated under pyparsing\'s commitment semantics: tag names, strings/URIs (unterminated or illegally escaped '
         'text cannot be accepted), lists/dicts/nested grids inside their brackets, no 3.0-only alternative in the 2.0 '
-        'alternation, anchored version regex.  (D5) every piece of a multi-grid document is parsed on every returning path of parser.parse (path enumeration; `single` only selects from the parsed list).  Not decided: termination; that line/col lie within the text.'),
+        'alternation, anchored version regex.  (D5) every piece of a multi-grid document is parsed on every returning path of parser.parse (path enumeration; `single` only selects from the parsed list).  (D6) no regex applied to the text on the ZINC path has a repeat with an iteration-ambiguous body (exponential backtracking).  Not decided: termination of the grammar recursion; that line/col lie within the text.'),
     'rule_text': 'obligations = wrapper facts, calls inside handlers x may-raise table, parse actions x may-raise table, '
                  'envelopes',
     'trusted_base': ['spec/may_raise.json (library exception facts); logging calls do not raise'],
@@ -48,6 +48,48 @@ def run(ctx):
         X.OVERLAY = {}
     _envelopes(ctx)
     _every_piece(ctx)
+    _regex_termination(ctx)
+
+
+def _regex_termination(ctx):
+    """(D6) the regular expressions applied to the input text on the ZINC path have no repeat whose body is ambiguous
+    under iteration (a string that is one iteration and also several): on the backtracking `re` engine such a
+    repeat costs 2^N steps on N repetitions whenever what follows fails to match.  Necessary for "parsing
+    terminates" in any practical sense; loops and recursion of the grammar itself are not decided."""
+    m = ctx.model
+    n = 0
+    for modname in ('parser', 'zincparser'):
+        F = 'hszinc/%s.py' % modname
+        for node in ast.walk(m.mod(modname).tree):
+            if not (isinstance(node, ast.Call) and norm(node.func) in ('re.compile', 'Regex', 'pp.Regex') and node.args):
+                continue
+            pat = m.fold(modname, node.args[0])
+            if not isinstance(pat, str):
+                continue
+            flags = 0
+            if len(node.args) > 1 or node.keywords:
+                fl = m.fold(modname, node.args[1] if len(node.args) > 1 else node.keywords[0].value)
+                flags = fl if isinstance(fl, int) else 0
+            n += 1
+            try:
+                amb = L.ambiguous_repeats(pat, flags)
+            except Exception as e:     # regex the model cannot read: not decided for this one
+                ctx.note('regex %r at %s:%d not analysed for ambiguity (%s)' % (pat[:40], F, node.lineno, e))
+                continue
+            if amb:
+                x, w = amb[0]
+                wtxt = ''.join(chr(c) for c in w)
+                ctx.violation('C09.D6', '%s::%r' % (F, pat), pat,
+                              'a text containing %r repeated 40 times and then a character at which the rest of the pattern '
+                              'fails (for a `$`-anchored pattern: the run is not at the very end of the text): the run can be '
+                              'split into iterations of the repeat in 2^40 ways and the `re` engine tries them all -- parse() '
+                              'does not return' % wtxt,
+                              'the regex %r has an unbounded repeat whose body matches %r both as one iteration and as several '
+                              '(exponential backtracking)' % (pat, wtxt), file=F, line=node.lineno, engine='E3')
+            else:
+                ctx.ob('C09.D6', 'regex %r: no repeat with an iteration-ambiguous body' % pat[:50], True, '%s:%d' % (F, node.lineno))
+    ctx.count('regexes analysed for iteration ambiguity', n)
+    ctx.floor('regexes analysed for iteration ambiguity', n, 20)
 
 
 def _every_piece(ctx):
